@@ -165,8 +165,9 @@ C05Fails(o, dec) ==
 \* o.props: sequence of property ids whose clauses are to be evaluated
 SymVerdict(o) ==
   LET M == o.res.matrix IN
-  IF ~ValidShape(M) THEN [tid |-> o.tid, fails |-> {<<"C02", "square_size">>}, devs |-> {}, facts |-> [shape |-> "bad"]]
-  ELSE IF ~Values01(M) THEN [tid |-> o.tid, fails |-> {<<"C02", "values01">>}, devs |-> {}, facts |-> [shape |-> "bad01"]]
+  \* a matrix that is not a square of a valid size, or holds values other than 0 / 1, fails every requested property
+  IF ~ValidShape(M) THEN [tid |-> o.tid, fails |-> {<<o.props[i], "square_size">> : i \in 1..Len(o.props)}, devs |-> {}, facts |-> [shape |-> "bad"]]
+  ELSE IF ~Values01(M) THEN [tid |-> o.tid, fails |-> {<<o.props[i], "values01">> : i \in 1..Len(o.props)}, devs |-> {}, facts |-> [shape |-> "bad01"]]
   ELSE
   LET dec == Decode(M)
       want(p) == InSeq(p, o.props)
